@@ -2085,7 +2085,32 @@ impl<'t, 'c> Gen<'t, 'c> {
                     };
                     // the value is bound by value with conversion to the parameter type
                     let v = if ety == Ty::Str || matches!(v, Expr::Lit(Lit::Str(_))) { v } else { v };
-                    main.push(Stmt::CallSub(p, vec![Expr::Load(lv), v]));
+                    if !lv.index.is_empty() && self.t.chance(1, 3) {
+                        // two by-reference arguments, the first an element whose subscript calls a FUNCTION with a by-reference
+                        // argument of its own: `ZW = value : ZK% = i : Set A(Idn%(ZK%)), ZW` - each value must come back to its own
+                        // argument (the element gets the value; ZW and ZK% keep theirs)
+                        let zk_name = "ZK%".to_string();
+                        let zk_idx = match self.prog.vars.iter().position(|x| x.name == zk_name) {
+                            Some(i) => i,
+                            None => self.add_var(zk_name.clone(), STy::B(Ty::Int), vec![], true),
+                        };
+                        let zw_name = format!("ZW{}", ety.suffix());
+                        let zw_idx = match self.prog.vars.iter().position(|x| x.name == zw_name) {
+                            Some(i) => i,
+                            None => self.add_var(zw_name.clone(), STy::B(ety), vec![], true),
+                        };
+                        let zk = sv(&zk_name, zk_idx, Ty::Int);
+                        let zw = sv(&zw_name, zw_idx, ety);
+                        let d = self.t.choose(lv.index.len());
+                        let mut lv2 = lv.clone();
+                        lv2.index[d] = Expr::Call(idn, vec![ld(&zk)]);
+                        main.push(Stmt::Assign(zw.clone(), v));
+                        main.push(Stmt::Assign(zk.clone(), lit_i(idx_vals[d] as i64)));
+                        main.push(Stmt::CallSub(p, vec![Expr::Load(lv2), ld(&zw)]));
+                        main.push(pr(vec![s_lit("k"), ld(&zk), ld(&zw)]));
+                    } else {
+                        main.push(Stmt::CallSub(p, vec![Expr::Load(lv), v]));
+                    }
                 }
                 _ => {
                     if !target.bounds.is_empty() {
